@@ -183,8 +183,12 @@ class TypeGen:
                 return inner   # NewType needs a class-like supertype
             self.fam.add({"k": "newtype", "name": name, "t": inner})
             return ("newtype", name, inner)
-        if x < 0.95:
+        if x < 0.945:
             return ("ann", self.type(depth - 1), (repr("tag"),))
+        if x < 0.957 and self.allow_generic:
+            return self.generic_dc(depth - 1)
+        if x < 0.967 and self.allow_generic:
+            return self.type_var()
         return self.dataclass(depth - 1)
 
     @staticmethod
@@ -264,6 +268,44 @@ class TypeGen:
 
     def _all_pipe_ok(self, members):
         return all(self._pipe_ok(m) for m in members) and members[0] != ("none",)
+
+    # ------------------------------------------------------------ generics
+    def type_var(self):
+        """a TypeVar used directly as a field type: constrained (acts as a union) or bound (acts as Optional[bound])."""
+        r = self.rng
+        name = self.fresh("TV")
+        if r.random() < 0.6:
+            cons = r.choice([[("int",), ("str",)], [("float",), ("str",)], [("str",), ("seq", "List", ("int",))], [("bool",), ("date",)]])
+            self.fam.add({"k": "typevar", "name": name, "constraints": cons})
+        else:
+            self.fam.add({"k": "typevar", "name": name, "bound": r.choice([("int",), ("date",), ("decimal",), ("seq", "List", ("str",))])})
+        return ("tv", name)
+
+    def generic_dc(self, depth):
+        """a generic dataclass Generic[T] used as a specialisation G[arg]."""
+        r = self.rng
+        tvn = self.fresh("T")
+        self.fam.add({"k": "typevar", "name": tvn})
+        name = self.fresh("G")
+        fields = [{"n": "x", "t": ("tv", tvn)},
+                  {"n": "xs", "t": ("seq", r.choice(["List", "list"]), ("tv", tvn)), "dmode": "factory", "dseed": 0, "const_default": []},
+                  {"n": "o", "t": ("opt", ("tv", tvn), "Optional"), "dmode": "default", "dseed": 0, "const_default": None}]
+        if r.random() < 0.4:
+            fields.insert(1, {"n": "m", "t": ("map", "Dict", ("str",), ("tv", tvn)), "dmode": "factory", "dseed": 0, "const_default": {}})
+        mixin = r.choice(self.mixins) if r.random() < self.mixin_prob else None
+        d = {"k": "dc", "name": name, "bases": [], "mixin": mixin, "generic": [tvn], "fields": fields}
+        cfg = self.dc_config_fn(r) if self.dc_config_fn else None
+        if cfg:
+            cfg = dict(cfg)
+            cfg.pop("_aliases", None)
+            d["config"] = cfg
+        self.fam.add(d, self.value_maker)
+        while True:
+            arg = self.scalar() if r.random() < 0.7 else (self.enum() if r.random() < 0.5 else self.dataclass(max(depth - 1, 0)))
+            if arg == ("none",) or (arg == ("pattern",) and not self.allow_pattern):
+                continue
+            break
+        return ("gdc", name, (arg,))
 
     # ------------------------------------------------------------ named
     def named_tuple(self, depth):
